@@ -10,7 +10,8 @@ PROPS["C15"] = P(
     "re-serializing the fully loaded copy must give identical bytes, and the stored file must equal the in-memory serialization. A panic or error while loading or querying a loaded value is a violation; "
     "a panic of the original is not (case abandoned, counted in the note abandoned_because_original_panicked). "
     "distinct_nontrivial = number of distinct (variant, contents stratum, mem|file) cells in which an instance holding at least two different elements (both bit values / two different values, "
-    "strings, keys) went through every loading path of the mode",
+    "strings, keys) went through every loading path of the mode"
+    ' The transcript of a BitFieldVec includes its atomic view and equality with a heap copy; a loaded Elias-Fano is also queried through &T under the keys the original answers directly; a rear-coded list is loaded where another one had been loaded and queried (same buffer, same address). ',
     dict(builds=["DBG", "UBC"]),
     dict(builds=["DBG", "UBC", "ASAN", "MIRI"], shards={"MIRI": 8, "ASAN": 8}),
     hang="violation",
